@@ -105,7 +105,17 @@ class Session(BaseSession):
         read_callback = functools.partial(self.event_dispatcher.notify, self.Event.response_data)
         stream.data_event_dispatcher.add_read_listener(read_callback)
 
-        self._response = response = yield from stream.read_response()
+        while True:
+            self._response = response = yield from stream.read_response()
+
+            if not 100 <= response.status_code <= 199 \
+                    or response.status_code == 101:
+                break
+
+            # An interim response (100 Continue, 103 Early Hints) precedes
+            # the response to this request; it is not that response.
+            _logger.debug('Got interim response {0}.'.format(response))
+
         response.request = request
 
         self.event_dispatcher.notify(self.Event.begin_response, response)
